@@ -239,7 +239,9 @@ class Run:
             self.violations.append(dict(clause='I4', caller=c, op=i, phase=phase, desc=op,
                                         expected=show_outcome(exp), got='deadlock: call never returns'))
             return
-        if faulted and out[0] == 'exc' and out[1] in INJECTED:
+        if faulted and out[0] == 'exc' and out[1] != 'SimDeadlock':
+            # the call that was hit by an injected fault may fail, with the injected exception or with whatever
+            # the code turns it into; what it may not do is return a wrong value, and it may not disturb others
             return
         eq, storage = outcome_equal(out, exp)
         if eq:
